@@ -299,6 +299,9 @@ def plan_C03(prop, tier, seed, t0):
         dict(name="rand", engine="extract", args=["--random", 500 if q else 3000, "--alphabet", "unitary", "--maxq", 3, "--maxlen", 9] + cli
              + ([] if q else ["--thorough"]), **T),
         dict(name="rand4", engine="extract", args=["--random", 40 if q else 800, "--alphabet", "unitary", "--maxq", 4, "--maxlen", 12] + cli, **T),
+        # deep Clifford+T circuits on two qubits: frontiers that need Gaussian elimination with several neighbours
+        dict(name="deep2", engine="extract", args=["--random", 150 if q else 3000, "--alphabet", "ct", "--minq", 2, "--maxq", 2, "--minlen", 12, "--maxlen", 40] + cli, **T),
+        dict(name="enum2", engine="extract", args=["--enum", "2,6,cth", "--stride", 24 if q else 2], **T),
     ]
     return run_plan(prop, tier, seed, t0, mcs, traces, "translation_validation", COMMON_ASSUME,
                     "one program = one source circuit pushed through to_graph -> {flow, clifford, full}_simp -> Extractor in modes "
